@@ -340,7 +340,9 @@ func runProxy(r *vh.Run, c proxyCase) {
 				if len(body) > 0 {
 					must[kv{"Content-Length", strconv.Itoa(len(body))}]++
 				} else {
-					opt[kv{"Content-Length", "0"}] = true
+					// the sender wrote an explicit "Content-Length: 0" line: it is a
+					// header of the message like any other
+					must[kv{"Content-Length", "0"}]++
 				}
 			}
 			probs := judgeHeaders(tn, pseudo, must, opt, fr, 0, 0)
